@@ -49,7 +49,7 @@ var c07BugMuts = map[string]bool{
 	// commit / dag level
 	"clock-equal": true, "clock-jump": true, "merge-with-ops": true, "foreign-root-merge": true,
 	"merge-clock-equal": true, "merge-clock-below": true,
-	"same-id-other-root": true,
+	"same-id-other-root": true, "same-ops-both-sides": true,
 	// ref level
 	"ref-name-mismatch": true, "ref-to-blob": true, "ref-to-tree": true, "ref-bad-name": true,
 	// root level (a new bug)
@@ -92,7 +92,7 @@ func (c07Driver) Gen(r *Rand, tier string) []json.RawMessage {
 			}
 		}
 		for _, m := range bm {
-			if strings.HasPrefix(m, "ref-") || (strings.HasPrefix(m, "root-") && m != "root-empty-pack") || m == "first-op-not-create" || m == "same-id-other-root" {
+			if strings.HasPrefix(m, "ref-") || (strings.HasPrefix(m, "root-") && m != "root-empty-pack") || m == "first-op-not-create" || m == "same-id-other-root" || m == "same-ops-both-sides" {
 				continue // (same-id-other-root is a valid bug on its own: corrupt only relative to what the victim holds)
 			}
 			// the same corrupt commit found under a LOCAL ref: reading must report an error, not crash
@@ -423,6 +423,30 @@ func (c07Driver) Run(raw json.RawMessage) Case {
 			mc := store(mes, base, c.Parents[0])
 			es = replace(es, "edit-clock-", repository.TreeEntry{ObjectType: repository.Blob, Hash: emptyBlob, Name: fmt.Sprintf("edit-clock-%d", mEdit+1)})
 			parents = []repository.Hash{mc}
+		case "same-ops-both-sides":
+			// the remote's new commit carries the very operations (same bytes, same ids) the victim recorded in its
+			// own, different, commit: each side is valid, their union holds every operation twice
+			if in.Sit != "diverged" && in.Sit != "ahead" {
+				return Case{Skip: "needs a local commit the remote does not have"}
+			}
+			lh, err := repoB.ResolveRef("refs/bugs/" + string(targetID))
+			must(err, "local head")
+			lc, err := repoB.ReadCommit(lh)
+			must(err, "read local head")
+			lt, err := repoB.ReadTree(lc.TreeHash)
+			must(err, "read local tree")
+			found := false
+			for _, e := range lt {
+				if e.Name == "ops" {
+					es = replace(es, "ops", repository.TreeEntry{ObjectType: repository.Blob, Hash: e.Hash, Name: "ops"})
+					found = true
+				}
+			}
+			if !found {
+				return Case{Skip: "local head has no ops entry"}
+			}
+			// another logical time than the victim's own commit: the two commits differ
+			es = replace(es, "edit-clock-", repository.TreeEntry{ObjectType: repository.Blob, Hash: emptyBlob, Name: fmt.Sprintf("edit-clock-%d", edit+3)})
 		case "same-id-other-root":
 			// the same bug id (a byte-identical first operation pack) on ANOTHER root commit, then a comment: a
 			// history that shares nothing with what the victim holds
